@@ -562,12 +562,12 @@ def transform_sessions(ctx: Ctx, rng: random.Random, count: int) -> list[Session
     return out
 
 
-def cycle_ops(rng: random.Random, length: int, d: int, scale_t, scale_r) -> list[tuple]:
+def cycle_ops(rng: random.Random, length: int, d: int, scale_t, scale_r, allow_empty: bool = False) -> list[tuple]:
     ops = []
     nr = np.random.RandomState(rng.getrandbits(31))
     for _ in range(length):
         if rng.random() < 0.7:
-            k = rng.choice([1, 1, 1, 2, 3])
+            k = rng.choice([1, 1, 1, 2, 3] + ([0, 0] if allow_empty else []))
             T2 = nr.uniform(-1, 1, size=(k, d)) * np.array(scale_t)
             R2 = nr.uniform(-1.5, 1.5, size=k) * scale_r
             ops.append(("add", T2, R2))
@@ -790,54 +790,88 @@ def predicate_roundtrip(T, R) -> tuple[str, str] | None:
     return None
 
 
-def predicate_cycle(T, R, ft: bool, fr: bool, ops: list, limit: bool = False) -> tuple[str, str] | None:
-    """after every add_data / lowest_point the dataset in original units (stored statistics undone) is the
-    old data followed by the new, whatever the flags"""
-    T_all, R_all = np.array(T, dtype=float), np.array(R, dtype=float)
-    md = make_md(T_all, R_all)
-    with warnings.catch_warnings():
-        warnings.simplefilter("ignore")
-        gp = make_gp(md, ft, fr, limit)
+class CycleTrack:
+    """one surrogate with its dataset, followed from outside: after every add_data / lowest_point the dataset in
+    original units (stored statistics undone) is the old data followed by the new, whatever the flags"""
+
+    def __init__(self, T, R, ft: bool, fr: bool, limit: bool = False, name: str = ""):
+        self.ft, self.fr, self.name = ft, fr, name
+        self.T_all, self.R_all = np.array(T, dtype=float), np.array(R, dtype=float)
+        self.md = make_md(self.T_all, self.R_all)
+        self.gp = make_gp(self.md, ft, fr, limit)
         if limit:
             # limit_highest_data clips the response ONCE, when the surrogate is constructed (by design);
             # from then on the dataset "as fitted" is the reference that additions must leave intact
-            R0 = np.atleast_1d(np.array(md.response, dtype=float))
-            R_all = R0 * md.resp_props["std"] + md.resp_props["mean"] if fr else R0.copy()
+            R0 = np.atleast_1d(np.array(self.md.response, dtype=float))
+            self.R_all = R0 * self.md.resp_props["std"] + self.md.resp_props["mean"] if fr else R0.copy()
+
+    def apply(self, step: int, op) -> tuple[str, str] | None:
+        md, gp, ft, fr = self.md, self.gp, self.ft, self.fr
+        try:
+            if op[0] == "add":
+                t2, r2 = np.array(op[1], dtype=float), np.array(op[2], dtype=float)
+                if t2.size == 0:
+                    t2 = t2.reshape(0, self.T_all.shape[1])
+                gp.add_data(t2, r2)
+                self.T_all = np.vstack([self.T_all, t2])
+                self.R_all = np.concatenate([self.R_all, r2])
+                low = None
+            else:
+                low = gp.lowest_point()
+        except Exception as e:
+            return (f"{op[0]}-raises", f"step {step}{self.name}: {type(e).__name__}: {e}")
+        T_all, R_all = self.T_all, self.R_all
+        Tn = np.array(md.training, dtype=float)
+        Rn = np.atleast_1d(np.array(md.response, dtype=float))
+        if ft:
+            Tn = Tn * md.train_props["std"] + md.train_props["mean"]
+        if fr:
+            Rn = Rn * md.resp_props["std"] + md.resp_props["mean"]
+        what = op[0] if not (op[0] == "add" and len(op[2]) == 0) else "add (empty batch)"
+        where = f"step {step}{self.name} ({what}, standardise_training={ft}, standardise_response={fr})"
+        if md.n_points != len(R_all) or Tn.shape != T_all.shape or Rn.shape != R_all.shape:
+            return (f"cycle:{op[0]}:shape", f"{where}: n_points {md.n_points}, training {Tn.shape}, response "
+                    f"{Rn.shape}; expected {len(R_all)} points")
+        for j in range(T_all.shape[1]):
+            s = max(float(np.max(np.abs(T_all[:, j]))), 1e-300)
+            if not np.all(np.abs(Tn[:, j] - T_all[:, j]) <= TOL * s):
+                k = int(np.argmax(np.abs(Tn[:, j] - T_all[:, j])))
+                return (f"cycle:{op[0]}:training", f"{where}: feature {j} of row {k} is {Tn[k, j]!r} in original units, "
+                        f"expected {T_all[k, j]!r}")
+        s = max(float(np.max(np.abs(R_all))), 1e-300)
+        if not np.all(np.abs(Rn - R_all) <= TOL * s):
+            k = int(np.argmax(np.abs(Rn - R_all)))
+            return (f"cycle:{op[0]}:response", f"{where}: response {k} is {Rn[k]!r} in original units, expected {R_all[k]!r}")
+        if low is not None and abs(float(low) - float(np.min(R_all))) > TOL * s:
+            return ("cycle:lowest:value", f"{where}: lowest_point returned {float(low)!r}, the lowest response is "
+                    f"{float(np.min(R_all))!r}")
+        return None
+
+
+def predicate_cycle(T, R, ft: bool, fr: bool, ops: list, limit: bool = False) -> tuple[str, str] | None:
+    with warnings.catch_warnings():
+        warnings.simplefilter("ignore")
+        tr = CycleTrack(T, R, ft, fr, limit)
         for step, op in enumerate(ops):
-            try:
-                if op[0] == "add":
-                    t2, r2 = np.array(op[1], dtype=float), np.array(op[2], dtype=float)
-                    gp.add_data(t2, r2)
-                    T_all = np.vstack([T_all, t2])
-                    R_all = np.concatenate([R_all, r2])
-                    low = None
-                else:
-                    low = gp.lowest_point()
-            except Exception as e:
-                return (f"{op[0]}-raises", f"step {step}: {type(e).__name__}: {e}")
-            Tn = np.array(md.training, dtype=float)
-            Rn = np.atleast_1d(np.array(md.response, dtype=float))
-            if ft:
-                Tn = Tn * md.train_props["std"] + md.train_props["mean"]
-            if fr:
-                Rn = Rn * md.resp_props["std"] + md.resp_props["mean"]
-            where = f"step {step} ({op[0]}, standardise_training={ft}, standardise_response={fr})"
-            if md.n_points != len(R_all) or Tn.shape != T_all.shape or Rn.shape != R_all.shape:
-                return (f"cycle:{op[0]}:shape", f"{where}: n_points {md.n_points}, training {Tn.shape}, response "
-                        f"{Rn.shape}; expected {len(R_all)} points")
-            for j in range(T_all.shape[1]):
-                s = max(float(np.max(np.abs(T_all[:, j]))), 1e-300)
-                if not np.all(np.abs(Tn[:, j] - T_all[:, j]) <= TOL * s):
-                    k = int(np.argmax(np.abs(Tn[:, j] - T_all[:, j])))
-                    return (f"cycle:{op[0]}:training", f"{where}: feature {j} of row {k} is {Tn[k, j]!r} in original units, "
-                            f"expected {T_all[k, j]!r}")
-            s = max(float(np.max(np.abs(R_all))), 1e-300)
-            if not np.all(np.abs(Rn - R_all) <= TOL * s):
-                k = int(np.argmax(np.abs(Rn - R_all)))
-                return (f"cycle:{op[0]}:response", f"{where}: response {k} is {Rn[k]!r} in original units, expected {R_all[k]!r}")
-            if low is not None and abs(float(low) - float(np.min(R_all))) > TOL * s:
-                return ("cycle:lowest:value", f"{where}: lowest_point returned {float(low)!r}, the lowest response is "
-                        f"{float(np.min(R_all))!r}")
+            r = tr.apply(step, op)
+            if r:
+                return r
+    return None
+
+
+def predicate_pair(TA, RA, TB, RB, ft: bool, fr: bool, opsA: list, opsB: list) -> tuple[str, str] | None:
+    """two surrogates alive at the same time (an objective and a constraint over the same inputs, say), their
+    update cycles interleaved: each dataset must behave as if it were alone"""
+    with warnings.catch_warnings():
+        warnings.simplefilter("ignore")
+        a = CycleTrack(TA, RA, ft, fr, False, " of dataset A (dataset B alive)")
+        b = CycleTrack(TB, RB, ft, fr, False, " of dataset B (dataset A alive)")
+        for step in range(max(len(opsA), len(opsB))):
+            for tr, ops in ((a, opsA), (b, opsB)):
+                if step < len(ops):
+                    r = tr.apply(step, ops[step])
+                    if r:
+                        return r
     return None
 
 
@@ -893,7 +927,8 @@ def predicates(ctx: Ctx) -> None:
         n = rng.choice([2, 3, 5, 10, 40])
         T, R = scaled_dataset(rng, n, d)
         ops = cycle_ops(rng, rng.randrange(1, ctx.scale(6, 12) + 1), d,
-                        [max(float(np.max(np.abs(T[:, j]))), 1e-300) for j in range(d)], max(float(np.max(np.abs(R))), 1e-300))
+                        [max(float(np.max(np.abs(T[:, j]))), 1e-300) for j in range(d)], max(float(np.max(np.abs(R))), 1e-300),
+                        allow_empty=True)          # a cycle that proposes nothing new hands over an empty batch
         ops = [tuple(x.tolist() if isinstance(x, np.ndarray) else x for x in o) for o in ops]
         # responses straddling zero with a few large ones, so that limit_highest_data has something to clip
         Rl = np.array(R, dtype=float) - float(np.mean(R)) * rng.choice([0.0, 0.9, 1.0])
@@ -912,6 +947,25 @@ def predicates(ctx: Ctx) -> None:
                          {"pred": "cycle", "T": T.tolist(), "R": np.asarray(Ruse).tolist(), "flags": [ft, fr],
                           "limit": lim, "ops": ops})
                 break
+
+
+    for _ in range(ctx.scale(8, 50) * deep):
+        d = rng.randrange(1, 4)
+        TA, RA = scaled_dataset(rng, rng.choice([3, 5, 10]), d)
+        TB, RB = scaled_dataset(rng, rng.choice([3, 5, 10]), d)
+        RB = np.asarray(RB, dtype=float) * rng.choice([100.0, 0.01, 1.0]) + rng.choice([0.0, 250.0])
+        mk = lambda T, R: [tuple(x.tolist() if isinstance(x, np.ndarray) else x for x in o) for o in cycle_ops(
+            rng, rng.randrange(2, 6), d, [max(float(np.max(np.abs(T[:, j]))), 1e-300) for j in range(d)],
+            max(float(np.max(np.abs(R))), 1e-300))]
+        opsA, opsB = mk(TA, RA), mk(TB, RB)
+        for ft, fr in itertools.product((False, True), repeat=2):
+            r = predicate_pair(TA, RA, TB, RB, ft, fr, opsA, opsB)
+            ctx.stats.case({"stream": "predicate-two-datasets", "d": d, "flags": [ft, fr]}, True)
+            if r:
+                ctx.fail("add_data/lowest_point:two-datasets:" + r[0], r[1],
+                         {"pred": "pair", "TA": TA.tolist(), "RA": np.asarray(RA).tolist(), "TB": TB.tolist(),
+                          "RB": np.asarray(RB).tolist(), "flags": [ft, fr], "opsA": opsA, "opsB": opsB})
+                return
 
 
 def shrink_exact(T: list, R: list, ops: list, key: str):
@@ -947,6 +1001,9 @@ def replay(ctx: Ctx, data: dict) -> bool:
         elif d.get("pred") == "cycle":
             r = predicate_cycle(d["T"], d["R"], bool(d["flags"][0]), bool(d["flags"][1]), [tuple(o) for o in d["ops"]],
                                 bool(d.get("limit", False)))
+        elif d.get("pred") == "pair":
+            r = predicate_pair(np.array(d["TA"]), d["RA"], np.array(d["TB"]), d["RB"], bool(d["flags"][0]), bool(d["flags"][1]),
+                               [tuple(o) for o in d["opsA"]], [tuple(o) for o in d["opsB"]])
         elif "stream" in d and "ops" in d:
             ops = d["ops"]
             if ops and ops[0][0] == "new":
